@@ -51,7 +51,8 @@ theorem inc16_step {x b l : Nat} (h : x = (b + l) % 65536) : inc16 x = (b + (l +
 
 /-- The invariant is preserved by every op whose replayed advertisements (if any) are coherent. -/
 theorem inv_step {L : Node → List RAd} {s : Net} {op : Op} (hI : Inv L s)
-    (hrep : ∀ a b ord, op = .replay a b ord → ∀ m, m ∈ replayAdvs a b (s.nodes a) ord → AdvOK L m) :
+    (hrep : ∀ a b ord, op = .replay a b ord →
+      ∀ m, m ∈ replayAdvs (hopCap s.maxHops) a b (s.nodes a) ord → AdvOK L m) :
     Inv L (step s op) where
   locals := fun x => (locals_step s op x).trans (hI.locals x)
   flight := by
@@ -73,7 +74,7 @@ theorem inv_step {L : Node → List RAd} {s : Net} {op : Op} (hI : Inv L s)
         rw [← hI.locals]; exact hr'
       · subst hr'
         exact ⟨0, Or.inl ⟨rfl, rfl, rfl⟩, by simp [inc16]⟩
-    | fwd a m hm hl ha hb hd hne hns hself hseen hsb hlim hadv =>
+    | fwd a m hm hl ha hb hd hne hns hself hseen hsb hlim hwire hadv =>
       intro hw
       have hw' : m.wd = false := by rw [hadv, fwdAdv_wd] at hw; exact hw
       rw [hadv]
@@ -106,7 +107,7 @@ theorem inv_step {L : Node → List RAd} {s : Net} {op : Op} (hI : Inv L s)
 /-- Advertisements that carry only the replayer's own local routes are coherent. -/
 theorem benign_advOK {L : Node → List RAd} {s : Net} {a b : Node} {ord : List RFrame} {m : Adv}
     (hI : Inv L s) (hb : benignOp s (.replay a b ord) = true)
-    (hm : m ∈ replayAdvs a b (s.nodes a) ord) : AdvOK L m := by
+    (hm : m ∈ replayAdvs (hopCap s.maxHops) a b (s.nodes a) ord) : AdvOK L m := by
   obtain ⟨ho, hp⟩ := benign_replay hb hm
   refine ⟨by rw [ho, hp]; exact List.mem_cons_self, ?_⟩
   intro r hr
@@ -126,7 +127,8 @@ theorem benign_advOK {L : Node → List RAd} {s : Net} {a b : Node} {ord : List 
 def CoherentRun (L : Node → List RAd) (s : Net) : List Op → Prop
   | [] => True
   | op :: t =>
-    (∀ a b ord, op = .replay a b ord → ∀ m, m ∈ replayAdvs a b (s.nodes a) ord → AdvOK L m) ∧
+    (∀ a b ord, op = .replay a b ord →
+      ∀ m, m ∈ replayAdvs (hopCap s.maxHops) a b (s.nodes a) ord → AdvOK L m) ∧
     CoherentRun L (step s op) t
 
 theorem inv_run_coherent {L : Node → List RAd} (s : Net) (ops : List Op) (hI : Inv L s)
